@@ -37,6 +37,11 @@ func checkC09(c *Ctx) {
 			handler, marker = a.Fn, a.Fn
 			continue
 		}
+		// the new marks computed in locals and written once: a phi with the sequence number among its values
+		if _, isPhi := v.(*ssa.Phi); isPhi && core.Derives(v, isSeq, false) {
+			handler, marker = a.Fn, a.Fn
+			continue
+		}
 		p, ok := core.Strip(v).(*ssa.Parameter)
 		if !ok || handler != nil {
 			continue
@@ -85,34 +90,39 @@ func checkC09(c *Ctx) {
 
 	r.Floor("C09.1-marks-monotone", 3)
 	gLast := core.LessGuard("lastID<SeqId", core.IsFieldLoad(lastID), isSeq, false)
-	for _, st := range core.StoresToField(marker, readID) {
-		construct := fk(marker) + ": readID = " + valDesc(st.Val, noteSeq.Name())
-		if isSeq(st.Val) {
+	for _, vs := range virtualStores(marker, readID) {
+		st := vs.St
+		construct := fk(marker) + ": readID = " + valDesc(vs.Val, noteSeq.Name())
+		if isSeq(vs.Val) {
 			g := core.LessGuard("readID<SeqId", core.IsFieldLoad(readID), isSeq, true)
-			ok, cnt := guarded(st, g)
+			ok, cnt := guarded(vs.At, g)
 			r.Check(ok && cnt[0] > 0, "C09.1-marks-monotone", construct, c.pos(st), "behind cached readID < note.SeqId", "the read mark can be set to a value not above the current one (moves backwards / duplicate accepted)")
 		} else {
 			r.Fail("C09.1-marks-monotone", construct, c.pos(st), "read mark assigned from something other than the note's sequence number in the note handler")
 		}
-		ok, cnt := guarded(st, gLast)
+		ok, cnt := guarded(vs.At, gLast)
 		r.Check(ok && cnt[0] > 0, "C09.1b-marks-bounded", construct, c.pos(st), "behind note.SeqId <= lastID", "a mark beyond the last message id can be stored")
 	}
-	for _, st := range core.StoresToField(marker, recvID) {
-		construct := fk(marker) + ": recvID = " + valDesc(st.Val, noteSeq.Name())
+	nRecv := 0
+	for _, vs := range virtualStores(marker, recvID) {
+		st := vs.St
+		nRecv++
+		construct := fk(marker) + ": recvID = " + valDesc(vs.Val, noteSeq.Name())
 		switch {
-		case isSeq(st.Val):
+		case isSeq(vs.Val):
 			g := core.LessGuard("recvID<SeqId", core.IsFieldLoad(recvID), isSeq, true)
-			ok, cnt := guarded(st, g)
+			ok, cnt := guarded(vs.At, g)
 			r.Check(ok && cnt[0] > 0, "C09.1-marks-monotone", construct, c.pos(st), "behind cached recvID < note.SeqId", "the received mark can be set to a value not above the current one (the guard compares a different mark or is missing)")
-		case core.IsFieldLoad(readID)(st.Val):
-			g := core.LessGuard("recvID<readID", core.IsFieldLoad(recvID), core.IsFieldLoad(readID), true)
-			ok, cnt := guarded(st, g)
-			r.Check(ok && cnt[0] > 0, "C09.1-marks-monotone", construct+" #"+retOrdinalOfStore(marker, st), c.pos(st), "received dragged up to read only when it is below it", "recvID is overwritten with readID without the recvID < readID test")
+		case core.IsFieldLoad(readID)(vs.Val):
+			// the received mark compared is the cached one or the one just taken from the note
+			g := core.LessGuard("recvID<readID", core.Or(core.IsFieldLoad(recvID), isSeq), core.IsFieldLoad(readID), true)
+			ok, cnt := guarded(vs.At, g)
+			r.Check(ok && cnt[0] > 0, "C09.1-marks-monotone", fmt.Sprintf("%s #%d", construct, nRecv), c.pos(st), "received dragged up to read only when it is below it", "recvID is overwritten with readID without the recvID < readID test")
 		default:
 			r.Fail("C09.1-marks-monotone", construct, c.pos(st), "received mark assigned from an unexpected value in the note handler")
 		}
-		ok, cnt := guarded(st, gLast)
-		r.Check(ok && cnt[0] > 0, "C09.1b-marks-bounded", construct+" #"+retOrdinalOfStore(marker, st), c.pos(st), "behind note.SeqId <= lastID", "a mark beyond the last message id can be stored")
+		ok, cnt := guarded(vs.At, gLast)
+		r.Check(ok && cnt[0] > 0, "C09.1b-marks-bounded", fmt.Sprintf("%s #%d", construct, nRecv), c.pos(st), "behind note.SeqId <= lastID", "a mark beyond the last message id can be stored")
 	}
 	core.ParamSubst = nil
 
